@@ -36,16 +36,15 @@ Theorem C23_parsed_items_unreported :
 Proof. exact parsed_items_unreported. Qed.
 Print Assumptions C23_parsed_items_unreported.
 
-(* Code bodies of probe records use the index space of the encoded module: every reported probe body - except the
-   after / alternate list of the function's final `end`, which the encoder drops without re-mapping it (class 205)
-   - occurs verbatim, with the same index immediates, in the code the encoder emits for the function. *)
+(* Code bodies of probe records use the index space of the encoded module: every probe body that
+   add_opcode_injections reports occurs verbatim, with the same index immediates, in the code the encoder emits for the
+   function (since the repair of D205 without exception: the after / alternate list of the final `end`, which the
+   encoder drops, is not reported). *)
 Theorem C23_probe_ids :
   forall mf mg mm (r : list (fop * flags)) pos last idx tagof recs body,
     fx_loc_probes pos last idx r tagof (remap_all mf mg mm) = Some recs ->
     remap_all mf mg mm (emit_from last idx r) = Some body ->
-    forall rc, In rc recs ->
-      (nth 1%nat (r_fields rc) 9 = 0 \/ (N.to_nat (nth 2%nat (r_fields rc) 0%N) < last)%nat) ->
-      exists pre post, body = pre ++ r_body rc ++ post.
+    forall rc, In rc recs -> exists pre post, body = pre ++ r_body rc ++ post.
 Proof. exact probe_bodies_are_emitted. Qed.
 Print Assumptions C23_probe_ids.
 
@@ -56,30 +55,56 @@ Theorem C23_checker_sound :
 Proof. exact sidefx_checker_sound. Qed.
 Print Assumptions C23_checker_sound.
 
-(* ---- the property is false of the faithful model: refutation witnesses ---- *)
-Definition refuted (c : scase) (k : N) : Prop :=
-  agree c = true /\ dom_of (verdict23 c) = true /\ holds_of (verdict23 c) = false /\ known_of (verdict23 c) = [k].
+(* The report of a function with special instrumentation (built by resolve_special_instrumentation since the repair of
+   D22): every record is the list of exactly one (instruction, mode) of the flags as they are before the special modes are
+   lowered - its operators re-mapped into the index space of the encoded module, under that very instruction and mode,
+   with the tag appended in that mode. *)
+Theorem C23_special_probes_reported_as_injected :
+  forall pos tagof remap body last idx st recs rc,
+    fx_unresolved pos last idx body st tagof remap = Some recs -> In rc recs ->
+    exists k op f m, nth_error body k = Some (op, f) /\ mode_list f m <> [] /\ remap (mode_list f m) = Some (r_body rc) /\
+                     r_fields rc = [1; mcode m; N.of_nat (idx + k); pos] /\ r_tag rc = tagof (idx + k)%nat m.
+Proof. exact unresolved_records_are_probes. Qed.
+Print Assumptions C23_special_probes_reported_as_injected.
 
-(* D22: a tagged function-entry probe is reported as FuncProbe (with its tag) and a second time, without the tag,
-   through the `before` list of instruction 0 it was lowered to *)
-Example C23_refuted_D22_entry :
-  refuted (self_s [] [11] [] [] 1 [] 0 0 [FConst 11; FDrop; FEnd] [] [] (Some ([FConst 100001; FDrop], Some 1)) None) 22.
+(* ---- repaired (fix: commits in /repo): the former refutation witnesses are positive examples now ---- *)
+Definition probes_reported (c : scase) (recs : list srec) : Prop :=
+  agree c = true /\ dom_of (verdict23 c) = true /\ holds_of (verdict23 c) = true /\ known_of (verdict23 c) = []
+  /\ option_map (fun fx => recs_of fx K_PROBE) (so_fx c) = Some recs.
+(* former D22: a tagged function-entry probe is reported once, as FuncProbe with its tag *)
+Example C23_repaired_D22_entry :
+  probes_reported (self_s [] [11] [] [] 1 [] 0 0 [FConst 11; FDrop; FEnd] [] [] (Some ([FConst 100001; FDrop], Some 1)) None)
+                  [mkRec [0; 0; 0; 0] [FConst 100001; FDrop] 1].
 Proof. vm_compute. repeat split; reflexivity. Qed.
-(* D22: a tagged block-entry probe is reported as an `after` probe of the block instruction, with the empty tag *)
-Example C23_refuted_D22_block_entry :
-  refuted (self_s [] [11] [] [] 1 [] 0 0 [FConst 11; FDrop; FBlock BtEmpty; FEnd; FEnd] []
-             [(2%nat, MBlockEntry, [FConst 100001; FDrop], Some 1)] None None) 22.
+(* former D22: a tagged block-entry probe is reported as the block-entry probe of the block instruction, with its tag *)
+Example C23_repaired_D22_block_entry :
+  probes_reported (self_s [] [11] [] [] 1 [] 0 0 [FConst 11; FDrop; FBlock BtEmpty; FEnd; FEnd] []
+                     [(2%nat, MBlockEntry, [FConst 100001; FDrop], Some 1)] None None)
+                  [mkRec [1; 4; 2; 0] [FConst 100001; FDrop] 1].
+Proof. vm_compute. repeat split; reflexivity. Qed.
+(* special and plain probes side by side, with an index shift: a block-alt that removes a region (the before / after code
+   of the removed `nop` is still encoded and reported, a block-exit inside it is dropped), a semantic-after on the
+   block, function exit *)
+Example C23_repaired_D22_mixed :
+  probes_reported (self_s [] [11] [] [] 1 [] 0 0 [FConst 11; FDrop; FBlock BtEmpty; FBlock BtEmpty; FOther 1; FEnd; FEnd; FEnd]
+                     [SAddImport SF 5 0]
+                     [(3%nat, MBlockAlt, [FConst 100001; FDrop; call_op 0], Some 1); (4%nat, MBefore, [FConst 100002; FDrop], Some 2);
+                      (3%nat, MBlockExit, [FConst 100003; FDrop], Some 3); (2%nat, MSemanticAfter, [FConst 100004; FDrop], Some 4)]
+                     None (Some ([FConst 100005; FDrop], Some 5)))
+                  [mkRec [0; 1; 0; 1] [FConst 100005; FDrop] 5; mkRec [1; 3; 2; 1] [FConst 100004; FDrop] 4;
+                   mkRec [1; 6; 3; 1] [FConst 100001; FDrop; call_op 1] 1; mkRec [1; 0; 4; 1] [FConst 100002; FDrop] 2].
 Proof. vm_compute. repeat split; reflexivity. Qed.
 (* former D204 (repaired): an imported global added with a tag and deleted again is not reported *)
 Example C23_repaired_204 :
   let c := self_s [] [11] [] [] 1 [] 0 0 [FConst 11; FDrop; FEnd] [SAddImport SG 5 1; SDelete SG 0] [] None None in
   agree c = true /\ dom_of (verdict23 c) = true /\ holds_of (verdict23 c) = true /\ so_fx c = Some [].
 Proof. vm_compute. repeat split; reflexivity. Qed.
-(* 205: an `after` probe on the function's final `end` calling function 0; add_import_func moves that function to
-   index 1; the record still says `call 0` (the list is neither emitted nor re-mapped) *)
-Example C23_refuted_205 :
-  refuted (self_s [] [11] [] [] 1 [] 0 0 [FConst 11; FDrop; FEnd] [SAddImport SF 5 0]
-             [(2%nat, MAfter, [FConst 100001; FDrop; call_op 0], Some 1)] None None) 205.
+(* former D205 (repaired): an `after` probe on the function's final `end` is dropped by the encoder and not reported *)
+Example C23_repaired_205 :
+  let c := self_s [] [11] [] [] 1 [] 0 0 [FConst 11; FDrop; FEnd] [SAddImport SF 5 0]
+             [(2%nat, MAfter, [FConst 100001; FDrop; call_op 0], Some 1); (2%nat, MBefore, [FConst 100002; FDrop; call_op 0], Some 2)] None None in
+  agree c = true /\ dom_of (verdict23 c) = true /\ holds_of (verdict23 c) = true /\ known_of (verdict23 c) = []
+  /\ option_map (fun fx => recs_of fx K_PROBE) (so_fx c) = Some [mkRec [1; 0; 2; 1] [FConst 100002; FDrop; call_op 1] 2].
 Proof. vm_compute. repeat split; reflexivity. Qed.
 
 (* ---- non-vacuity: tagged / default-tagged / untagged additions of every kind, a deduplicated type, a deleted
